@@ -517,8 +517,9 @@ theorem history_relinks (dec : String → G) (cw : String → Nat) (hsp : cw "20
 /-- **C12, the composition theorem for whole histories including resizes, on ANY screen, with or without
     styled underlines and direct colour.** From any state of an application whose last flush is complete
     (`LinkedP`: C01's `Ready`, `DSim`, the cursor's visibility as remembered — on the alternate screen
-    what the real start-up establishes, on the primary screen what an application started with
-    `Options.NoAltScreen`-like behaviour or after `exitAltScreen` has), for every list of admissible segments
+    what the real start-up establishes; Vaxis itself always enters the alternate screen, so the primary-screen
+    case is a generalisation — an emulator switched back by other means while the application keeps
+    rendering), for every list of admissible segments
     — a resize of the emulator to any size 1×1 … 65535² (on the primary screen: with reflow of whatever
     it shows) followed by any number of admissible frames at that size, the first a refresh — rendered
     under any capability set without explicit width and synchronized output (`CapsOkU`; with styled
